@@ -8,6 +8,7 @@
 //!   dl-c10 enum --len L [--alphabet reduced|full]   every valid history of length <= L
 //!   dl-c10 random --seed S --n N --len L            seeded random histories
 //!   dl-c10 breakfix                               break / repair / touch every bundled file
+//!   dl-c10 luaurc                                 `.luaurc` aliases changing between passes (path and luau mode)
 //!   dl-c10 disk --root DIR                        fixed histories on a real directory (pruning)
 //!
 //! History syntax (space separated, an initial process is implicit, as `--watch` does):
@@ -36,11 +37,38 @@ const CONFIG: &str = ".darklua.json";
 const ENTRY: &str = "src/app/main.lua";
 
 const CONF: &str = "lib/conf.json";
+const LUAURC: &str = ".luaurc";
+/// a closer `.luaurc` shadows the one at the root for the files below `src/`
+const NESTED_LUAURC: &str = "src/.luaurc";
+const PACKAGES: [&str; 2] = ["packages_v1/value.lua", "packages_v2/value.lua"];
+
+/// where the alias `@Packages` of `.luaurc` version `n` points (odd: v1, even: v2)
+fn alias_target(n: u32) -> &'static str {
+    if n % 2 == 1 {
+        PACKAGES[0]
+    } else {
+        PACKAGES[1]
+    }
+}
 
 /// content of a project file at version `n`:
 /// 0 = does not parse; for `lib/m3.lua`, 200.. = requires `./m1` back (a require cycle);
 /// for the entry, 100.. = no require at all
 fn template(path: &str, n: u32) -> String {
+    if path == LUAURC || path == NESTED_LUAURC {
+        return if n == 0 {
+            "{ \"aliases\": \n".to_owned()
+        } else {
+            format!(
+                "{{ \"aliases\": {{ \"Packages\": \"{}{}\" }} }}\n",
+                if path == NESTED_LUAURC { "../" } else { "" },
+                alias_target(n).trim_end_matches("/value.lua")
+            )
+        };
+    }
+    if path.starts_with("packages_v") && n != 0 {
+        return format!("-- {p} v{n}\nreturn {base} + {n}\n", p = path, n = n, base = if path == PACKAGES[0] { 100 } else { 200 });
+    }
     if path == CONF {
         return if n == 0 {
             "{ \"v\": \n".to_owned()
@@ -56,7 +84,7 @@ fn template(path: &str, n: u32) -> String {
     }
     match path {
         ENTRY => format!(
-            "local m1 = require(\"../../lib/m1\")\nlocal b = require(\"../sub/b\")\nlocal m3 = require(\"../../lib/m3\")\n-- entry v{n}\nreturn m1.v + b + m3.v + (1 + {n})\n",
+            "local m1 = require(\"../../lib/m1\")\nlocal b = require(\"../sub/b\")\nlocal m3 = require(\"../../lib/m3\")\nlocal pkg = require(\"@Packages/value\")\n-- entry v{n}\nreturn m1.v + b + m3.v + pkg + (1 + {n})\n",
             n = n
         ),
         "lib/m1.lua" => format!(
@@ -79,7 +107,18 @@ fn healthy_version(path: &str, n: u32) -> bool {
     n != 0 && !(path == "lib/m3.lua" && n >= 200)
 }
 
-/// the requires written in the templates
+/// the requires written in the templates (`alias`: where `@Packages/value` resolves, if it does)
+fn requires_with(path: &str, n: u32, alias: Option<&'static str>) -> Vec<&'static str> {
+    match path {
+        ENTRY if n != 0 && n < 100 => {
+            let mut all = vec!["lib/m1.lua", "src/sub/b.lua", "lib/m3.lua"];
+            all.extend(alias);
+            all
+        }
+        _ => requires(path, n),
+    }
+}
+
 fn requires(path: &str, n: u32) -> Vec<&'static str> {
     match path {
         ENTRY if n != 0 && n < 100 => vec!["lib/m1.lua", "src/sub/b.lua", "lib/m3.lua"],
@@ -102,8 +141,15 @@ fn certainly_inlined(versions: &BTreeMap<String, u32>, path: &str) -> bool {
 /// files that a bundle of the entry certainly read and inlined, even if the bundle fails elsewhere
 fn read_before_failure(versions: &BTreeMap<String, u32>) -> Vec<String> {
     let mut result = Vec::new();
+    // `.luaurc`: missing -> the alias does not resolve (that require fails, the others are
+    // inlined); present but not JSON -> the bundler stops before reading anything
+    let alias = match versions.get(NESTED_LUAURC).or_else(|| versions.get(LUAURC)) {
+        Some(0) => return Vec::new(),
+        Some(n) => Some(alias_target(*n)),
+        None => None,
+    };
     let mut stack: Vec<&str> = match versions.get(ENTRY) {
-        Some(n) => requires(ENTRY, *n),
+        Some(n) => requires_with(ENTRY, *n, alias),
         None => Vec::new(),
     };
     while let Some(path) = stack.pop() {
@@ -117,6 +163,7 @@ fn read_before_failure(versions: &BTreeMap<String, u32>) -> Vec<String> {
 }
 
 const N_CONFIGS: u32 = 6;
+/// configuration 6 (bundle in `luau` require mode) is used by the `.luaurc` stream only
 
 /// configuration file variants: rules, rule filters, generator
 fn config_text(k: u32) -> String {
@@ -136,6 +183,7 @@ fn config_text(k: u32) -> String {
             bundle
         ),
         4 => format!(r#"{{ "rules": [], "generator": "dense", {} }}"#, bundle),
+        6 => r#"{ "rules": [], "generator": "retain_lines", "bundle": { "require_mode": "luau", "modules_identifier": "__M" } }"#.to_owned(),
         _ => format!(
             r#"{{ "rules": ["remove_comments"], "generator": "retain_lines", {} }}"#,
             bundle
@@ -153,6 +201,9 @@ fn initial_files() -> BTreeMap<String, String> {
         "lib/m1.lua",
         "lib/m3.lua",
         CONF,
+        LUAURC,
+        PACKAGES[0],
+        PACKAGES[1],
     ] {
         files.insert(path.to_owned(), template(path, 1));
     }
@@ -381,6 +432,15 @@ fn dump_json(tree: &WorkerTree) -> Value {
 
 /// the model-independent oracle: a fresh run over the user's files into an empty output folder
 fn fresh_run(user_files: &BTreeMap<String, String>) -> (Value, BTreeMap<String, String>) {
+    // the oracle must not share any thread-local state of darklua (the `.luaurc` cache) with the
+    // long-lived worker: it runs `darklua_core::process` on fresh resources in a NEW thread
+    let files = user_files.clone();
+    std::thread::spawn(move || fresh_run_here(&files))
+        .join()
+        .unwrap_or_else(|_| (json!({ "out": {}, "state": Value::Null, "error": "PANIC" }), BTreeMap::new()))
+}
+
+fn fresh_run_here(user_files: &BTreeMap<String, String>) -> (Value, BTreeMap<String, String>) {
     let disk = disk_mode();
     if let Some((_, fresh_dir, _)) = disk.as_ref() {
         let _ = std::fs::remove_dir_all(fresh_dir);
@@ -721,6 +781,7 @@ const DIRS: [&str; 4] = ["src/sub", "src/sub/deep", "src/app", "lib"];
 /// which files exist after the events so far (only the paths matter)
 fn existing(history: &[Ev]) -> Vec<String> {
     let mut files: Vec<String> = SOURCES.iter().chain(DEPS.iter()).map(|s| s.to_string()).collect();
+    files.push(LUAURC.to_owned());
     for event in history {
         match event {
             Ev::Add(p, _) | Ev::AddSource(p, _) => {
@@ -750,7 +811,7 @@ fn candidates(history: &[Ev], full: bool) -> Vec<Ev> {
     let version = history.len() as u32 + 2;
     let mut events = vec![Ev::Process];
     let edit_targets: Vec<&str> = if full {
-        SOURCES.iter().chain(ADDABLE.iter()).chain(DEPS.iter()).copied().collect()
+        SOURCES.iter().chain(ADDABLE.iter()).chain(DEPS.iter()).chain([LUAURC].iter()).copied().collect()
     } else {
         vec!["src/a.lua", ENTRY, "lib/m3.lua", "src/sub/b.lua"]
     };
@@ -760,7 +821,7 @@ fn candidates(history: &[Ev], full: bool) -> Vec<Ev> {
         }
     }
     let break_targets: Vec<&str> = if full {
-        vec!["src/a.lua", ENTRY, "lib/m1.lua", "src/sub/b.lua"]
+        vec!["src/a.lua", ENTRY, "lib/m1.lua", "src/sub/b.lua", LUAURC]
     } else {
         vec!["src/a.lua"]
     };
@@ -770,7 +831,7 @@ fn candidates(history: &[Ev], full: bool) -> Vec<Ev> {
         }
     }
     let add_targets: Vec<&str> = if full {
-        SOURCES.iter().chain(ADDABLE.iter()).chain(DEPS.iter()).copied().collect()
+        SOURCES.iter().chain(ADDABLE.iter()).chain(DEPS.iter()).chain([LUAURC].iter()).copied().collect()
     } else {
         vec!["src/a.lua", "src/new.lua", ENTRY, "lib/m3.lua"]
     };
@@ -783,7 +844,7 @@ fn candidates(history: &[Ev], full: bool) -> Vec<Ev> {
         }
     }
     let remove_targets: Vec<&str> = if full {
-        SOURCES.iter().chain(ADDABLE.iter()).chain(DEPS.iter()).copied().collect()
+        SOURCES.iter().chain(ADDABLE.iter()).chain(DEPS.iter()).chain([LUAURC].iter()).copied().collect()
     } else {
         vec!["src/a.lua", "lib/m3.lua"]
     };
@@ -891,6 +952,37 @@ fn main() {
                 emit(run_with_limit(history, limit));
             }
         }
+        "luaurc" => {
+            // `.luaurc` (alias used by a bundled require) changes between passes of the worker,
+            // in path and in luau require mode
+            let bases = [
+                "E:.luaurc:2 P",
+                "E:.luaurc:2 E:src/app/main.lua:3 P",
+                "E:src/app/main.lua:3 E:.luaurc:2 P",
+                "E:.luaurc:2 P E:src/app/main.lua:3 P",
+                "E:.luaurc:2 E:src/app/main.lua:3 P E:.luaurc:3 E:src/app/main.lua:4 P E:.luaurc:4 E:src/app/main.lua:5 P",
+                "R:.luaurc E:src/app/main.lua:3 P A:.luaurc:2 E:src/app/main.lua:4 P",
+                "X:.luaurc E:src/app/main.lua:3 P E:.luaurc:2 E:src/app/main.lua:4 P",
+                "X:.luaurc E:src/app/main.lua:3 P E:.luaurc:3 P",
+                "R:.luaurc P",
+                "E:packages_v2/value.lua:5 P E:.luaurc:2 E:src/app/main.lua:3 P E:packages_v2/value.lua:6 P",
+                "E:.luaurc:2 E:src/app/main.lua:3 P E:packages_v1/value.lua:7 P",
+                "E:.luaurc:2 C:1 P",
+                "E:.luaurc:2 E:lib/m3.lua:4 P",
+                "E:.luaurc:2 R:src/app/main.lua A:src/app/main.lua:3 P",
+                "E:.luaurc:2 R:src/app/main.lua S:src/app/main.lua:3 P",
+                "A:src/.luaurc:2 E:src/app/main.lua:3 P R:src/.luaurc E:src/app/main.lua:4 P",
+                "A:src/.luaurc:2 P",
+                "E:.luaurc:2 E:src/app/main.lua:3 P E:.luaurc:1 E:src/app/main.lua:1 P",
+                "E:.luaurc:2 E:src/a.lua:3 P E:src/app/main.lua:4 P",
+            ];
+            for prefix in ["", "C:6 P "] {
+                for base in bases {
+                    let history = format!("{}{}", prefix, base);
+                    emit(run_with_limit(parse_history(&history), limit));
+                }
+            }
+        }
         "breakfix" => {
             // break a bundled file in every way, process, repair it (back to the original or to
             // new content), process, then touch every position of the dependency graph, process
@@ -971,7 +1063,7 @@ fn main() {
             let _ = std::fs::remove_dir_all(root.join("fresh"));
         }
         _ => {
-            eprintln!("usage: dl-c10 run|enum|random|breakfix|disk ...");
+            eprintln!("usage: dl-c10 run|enum|random|breakfix|luaurc|disk ...");
             std::process::exit(2);
         }
     }
